@@ -48,7 +48,8 @@ class Container:
         return self._inst_item(item)
 
     def __delitem__(self, item):
-        if not isinstance(item, Entity):
+        # Features are not Entity subclasses but can be deleted by object too
+        if not isinstance(item, (Entity, self._itemclass)):
             item = self[item]
 
         if not isinstance(item, self._itemclass):
